@@ -50,11 +50,11 @@ Definition map_ok (m : list (nat * nat)) (N : list elemQ) : bool :=
    inductors' initial-current sources are printed as plain constants (read back
    as DC sources); 1: neither *)
 Definition s_model_code (s : Qc) (N out : list elemQ) (d : nat) : nat :=
-  if net_eqb (@s_model QcF qc_eqb s KwS N d) out then 0
-  else if net_eqb (@s_model QcF qc_eqb s KwNone N d) out then 5 else 1.
+  if net_eqb (@s_model QcF qc_eqb s s KwS N d) out then 0
+  else if net_eqb (@s_model QcF qc_eqb s s KwNone N d) out then 5 else 1.
 Definition noisy_kill_code (N out : list elemQ) (d : nat) : bool := net_eqb (renum_wires (kill_noise (noisy N d) 0) 0) (renum_wires out 0).
 
-Definition s_modelQ (s : Qc) := @s_model QcF qc_eqb s KwS.
+Definition s_modelQ (s : Qc) := @s_model QcF qc_eqb s s KwS.
 Definition switch_closedQ := @switch_closed QcF qlt.
 Definition switch_closed_specQ := @switch_closed_spec QcF qlt.
 Definition ElemQ (nm : name) (t : ety) (ns : list nat) (kw : skw) (x : Qc) (ic : option Qc) : elemQ := @Elem QcF nm t ns kw x ic.
